@@ -167,8 +167,7 @@ def _plan(draws, spec, idx, scenario):
         f2 = op2.sel[0]
         if scenario == "two-aliases":
             f2.alias = "other"
-        op.vardefs.extend(op2.vardefs)
-        op.variables.update(op2.variables)
+        op.vars.update(op2.vars)
         if scenario == "two-via-fragment":
             f2.alias = "other"
             op.fragments["FX"] = ("Subscription", [f2])
